@@ -5,6 +5,7 @@ import PP.Driver.RegCodec
 import PP.Driver.GraphCodec
 import PP.Model.Color
 import PP.Model.Cost
+import PP.Spec.Unescape
 open PP PP.Sexp
 
 /-- one layout configuration `(w rw smart)` -/
@@ -89,6 +90,13 @@ def handle (req : Sexp) : Sexp :=
     match nat? isB, nat? q, nats? chars with
     | some b, some q, some cs => ofStr "ok" (PyStr.escapeForQuote (b == 1) q (cs.map decodePChar))
     | _, _, _ => sym "bad-request"
+  | .list [.atom "unesc", q, .list body] =>
+    match nat? q, nats? body with
+    | some q, some body =>
+      match PyStr.unescape q body with
+      | some v => ofStr "ok" v
+      | none => sym "invalid"
+    | _, _ => sym "bad-request"
   | .list [.atom "quote", .list chars] =>
     match nats? chars with
     | some cs => .list [sym "ok", ofNat (PyStr.determineQuote (cs.map decodePChar))]
